@@ -133,6 +133,13 @@ def document(rng, maxp=5, with_files=None):
         ps.append(files_para(rng))
     if with_files is False:
         ps = [p for p in ps if p['kind'] != 'files']
+    # the same license, name and text, in a stand-alone License paragraph and in a Files paragraph or the header
+    lics = [p for p in ps if p['kind'] == 'license' and p['license'][1]]
+    users = [p for p in ps if p['kind'] in ('files', 'header') and p.get('license')]
+    if lics and users and rng.random() < .25:
+        src = rng.choice(lics)
+        for u in rng.sample(users, rng.randint(1, len(users))):
+            u['license'] = (src['license'][0], list(src['license'][1]))
     return ps
 
 
